@@ -11,6 +11,8 @@ import (
 	"os"
 	"testing"
 
+	"pgregory.net/rapid"
+
 	"verif/drive"
 	"verif/stats"
 )
@@ -21,6 +23,28 @@ func TestMain(m *testing.M) {
 	drive.Close()
 	stats.Flush()
 	os.Exit(rc)
+}
+
+// judge has the semantics of stats.Judge (known signature: counted, case discarded; otherwise the failing case is
+// recorded and the test fails) but fails with a text that only names the signature.  rapid's shrinker accepts a
+// smaller case only if it fails with the *same* message, and the full messages carry op indices, instance ids and
+// key bytes that change from run to run; the full message goes to the fail record and is printed again by TestReplay.
+func judge(t *rapid.T, test string, err error, cse interface{}) bool {
+	if err == nil {
+		return true
+	}
+	sig := stats.SigOf(err)
+	if sig != "" && stats.IsKnown(sig) {
+		stats.KnownHit(sig)
+		return false
+	}
+	stats.WriteFail("C06", test, err, cse)
+	t.Logf("detail: %v", err)
+	if sig == "" {
+		sig = "harness-error"
+	}
+	t.Fatalf("VIOLATION-CANDIDATE property=C06 test=%s: %s (full message in the fail record / replay)", test, sig)
+	return false
 }
 
 func TestReplay(t *testing.T) {
